@@ -5,18 +5,24 @@
 # the same tsim batch must report identical counters.
 set -u
 cd "$(dirname "$0")/.."
-N=${1:-300}; SEED=${2:-1}
+N=${1:-300}; SEEDS=${2:-"1 2 3 4 5"}
 H=harness/target
 fail=0
+# binaries must be those of /repo's current working tree
+(cd harness && CARGO_NET_OFFLINE=true cargo build --release -p rsim -q && CARGO_NET_OFFLINE=true cargo build --profile checked -p rsim -q) || exit 2
+tools/c16.sh build || exit 2
+for SEED in $SEEDS; do
 for prof in release checked; do
   for prop in C01 C06 C10 C14; do
     a=$($H/$prof/rsim hashes --property $prop --runs $N --seed $SEED --workers 16 | sort | sha256sum)
     b=$($H/$prof/rsim hashes --property $prop --runs $N --seed $SEED --workers 3 | sort | sha256sum)
     c=$($H/$prof/rsim hashes --property $prop --runs $N --seed $SEED --workers 7 | sort | sha256sum)
     n=$($H/$prof/rsim hashes --property $prop --runs $N --seed $SEED --workers 5 | wc -l)
-    if [ "$a" = "$b" ] && [ "$a" = "$c" ]; then echo "deterministic: $prof $prop ($n run hashes, workers 16/3/7)"; else echo "NONDETERMINISTIC: $prof $prop"; fail=1; fi
+    if [ "$a" = "$b" ] && [ "$a" = "$c" ]; then echo "deterministic: VERIF_SEED=$SEED $prof $prop ($n run hashes, workers 16/3/7)"; else echo "NONDETERMINISTIC: VERIF_SEED=$SEED $prof $prop"; fail=1; fi
   done
 done
+done
+SEED=1
 # cross-profile: the event log does not depend on the build profile either
 a=$($H/release/rsim hashes --property C05 --runs $N --seed $SEED | sort | sha256sum)
 b=$($H/checked/rsim hashes --property C05 --runs $N --seed $SEED | sort | sha256sum)
